@@ -91,8 +91,8 @@ class World:
         self.par = lw.Parameter(env.R[1])
         a = lw.Unitary(u1.copy()); a.herald(0, 2)
         b = lw.Unitary(u1.copy()); b.herald(1, 2)        # same U_full as a, herald carries a photon
-        c = lw.Unitary(u2.copy()); c.herald(0, 2); c.loss(0, env.L[1])
-        p = lw.Circuit(3); p.bs(0, reflectivity=self.par); p.bs(1); p.herald(0, 2)
+        c = lw.Unitary(u2.copy()); c.herald(0, 0); c.loss(0, env.L[1])         # herald on another mode
+        p = lw.Circuit(3); p.bs(0, reflectivity=self.par); p.bs(1); p.herald(0, 2, 1)  # herald in != out
         self.circ = {"a": a, "b": b, "c": c, "p": p}
         self.inputs = {"10": lw.State([1, 0]), "01": lw.State([0, 1]), "11": lw.State([1, 1])}
 
@@ -109,6 +109,9 @@ def mk_ps(kind):
     return p
 
 
+DET_EFF = 0.75      # imperfect detection: sampling then also caches states outside the distribution
+
+
 # ---------------- Sampler
 def sampler_alphabet(env, tier):
     a = [("circuit", k) for k in "abcp"] + [("param", v) for v in (env.R[1], env.L[1])] \
@@ -116,7 +119,7 @@ def sampler_alphabet(env, tier):
         + [("src_inplace", "brightness", 1.0), ("src_inplace", "brightness", env.R2),
            ("backend", "permanent"), ("backend", "slos"), ("read",), ("draw",)]
     if tier == "thorough":
-        a += [("input", "11"), ("src_inplace", "indistinguishability", 0.5), ("edit", "bs"), ("edit", "herald")]
+        a += [("det", 1, True), ("det", DET_EFF, False), ("input", "11"), ("src_inplace", "indistinguishability", 0.5), ("edit", "bs"), ("edit", "herald")]
     return a
 
 
@@ -129,7 +132,8 @@ def sampler_apply(s, w, op):
     elif k == "src_inplace": setattr(s.source, op[1], op[2])
     elif k == "backend": s.backend = op[1]
     elif k == "read": s.probability_distribution
-    elif k == "draw": s.sample_N_inputs(2, seed=1); s.sample()
+    elif k == "draw": s.sample_N_inputs(40, seed=1); s.sample()
+    elif k == "det": s.detector = emu.Detector(efficiency=op[1], photon_counting=op[2])
     elif k == "edit":
         if op[1] == "bs": s.circuit.bs(0, 1, reflectivity=0.21)
         else: s.circuit.herald(0, 0)
@@ -138,7 +142,7 @@ def sampler_apply(s, w, op):
 
 def sampler_build(hist, env):
     w = World(env)
-    s = emu.Sampler(w.circ["a"], w.inputs["10"])
+    s = emu.Sampler(w.circ["a"], w.inputs["10"], detector=emu.Detector(efficiency=DET_EFF))
     for op in hist:
         try:
             sampler_apply(s, w, op)
@@ -170,12 +174,15 @@ def sampler_fresh(s, w):
         src = emu.Source(brightness=s.source.brightness, purity=s.source.purity,
                          indistinguishability=s.source.indistinguishability,
                          probability_threshold=s.source.probability_threshold)
-        return emu.Sampler(s.circuit, s.input_state, source=src, backend=s.backend.backend), w
+        det = emu.Detector(efficiency=s.detector.efficiency, p_dark=s.detector.p_dark,
+                           photon_counting=s.detector.photon_counting)
+        return emu.Sampler(s.circuit, s.input_state, source=src, detector=det, backend=s.backend.backend), w
     return build
 
 
 def sampler_config(s):
     return kernel.fp8((full_fingerprint(s.circuit), tuple(s.input_state.s), s.backend.backend,
+                       s.detector.efficiency, s.detector.p_dark, s.detector.photon_counting,
                        s.source.brightness, s.source.purity, s.source.indistinguishability))
 
 
